@@ -9,6 +9,7 @@ import json
 import os
 import sys
 import traceback
+import warnings
 
 HERE = os.path.dirname(os.path.abspath(__file__))
 sys.path.insert(0, os.path.dirname(HERE))
@@ -27,6 +28,7 @@ def main():
     if tier not in ("quick", "thorough"):
         tier = "quick"
     seed = int(os.environ.get("VERIF_SEED", "20261003") or 20261003)
+    warnings.simplefilter("ignore")
     try:
         common.bind_source()
         mod = importlib.import_module(f"harness.props.{a.pid.lower()}")
